@@ -647,3 +647,10 @@ V("C11", "checksum-of-name", "fire", (SCN, "    checksum = calculate_checksum(pa
 V("C11", "is-excluded-negated", "fire", (SCN, "    return spec.match_file(path)", "    return not spec.match_file(path)"), "selection inverted", "is_excluded/definition")
 V("C11", "new-caller-of-analyze", "fire", (SCN, "def generate_exclude_spec(root: Path) -> PathSpec:", "def analyze_one(path, lexer):\n    return _analyze_file(path, path, calculate_checksum(path), lexer)\n\n\ndef generate_exclude_spec(root: Path) -> PathSpec:"),
   "analysis reachable outside the guards", "_analyze_file<-")
+V("C01", "block-end-inclusive", "fire", (SU, "TokenRange(bt[0], bt[1] + 1)", "TokenRange(bt[0], bt[1])"), "closing brace outside the block: spans end one token early", "get_blocks/exclusive-end")
+V("C01", "python-indent-ge", "fire", (PYL, "                elif line_indentation > header_indentation:", "                elif line_indentation >= header_indentation:"), "sibling function swallowed into the body", "Python.extract_blocks/indentation")
+V("C01", "python-headerline-lt", "fire", (PYL, "                if line_nr <= header_line_nr:", "                if line_nr < header_line_nr:"), "function loses its body", "Python.extract_blocks/header-line")
+V("C01", "python-end-inclusive", "fire", (PYL, "end = tokens.index(scope_tokens[-1]) + 1", "end = tokens.index(scope_tokens[-1])"), "last token outside the suite", "Python.extract_blocks/exclusive-end")
+V("C01", "balanced-swapped", "fire", ("codelimit/common/token_utils.py", "                    result.append((start_index, index))", "                    result.append((index, start_index))"), "pair reversed", "get_balanced_symbol_token_indices/pair")
+V("C01", "balanced-nesting-and", "fire", ("codelimit/common/token_utils.py", "                if extract_nested or len(block_starts) == 0:\n                    result.append((start_index, index))", "                if extract_nested and len(block_starts) == 0:\n                    result.append((start_index, index))"),
+  "inner blocks never extracted", "nesting-flag")
